@@ -322,6 +322,29 @@ def genCheck (n : Nat) (g : α) : Bool :=
 def permVerify (n : Nat) (g : α) (cv : List α) (sv ε ω η : α) (kzgBatch kzgShift : Bool) : Bool :=
   permIdentity F n cv sv ε ω η && kzgBatch && kzgShift && genCheck F n g
 
+/-! ### specification of the prover-supplied parameters `(size, g)` and of the statement
+Used for the CONSISTENT forgeries (`mut=consist`): every component of the proof is derived honestly for a given `(size, g)`,
+so the verdict is the specification's: `size` is a power of two ≥ 2 (the only sizes `Prove` produces), `g` is a PRIMITIVE
+`size`-th root of unity, and the second vector is a permutation of the first. -/
+
+/-- `g` is a primitive `n`-th root of unity: `gⁿ = 1` and `gᵏ ≠ 1` for `0 < k < n` (brute force, `n` is small) -/
+def isPrimRoot (n : Nat) (g : α) : Bool :=
+  decide (0 < n) && F.beq (npow F g n) F.one &&
+    (List.range n).all (fun k => k == 0 || !(F.beq (npow F g k) F.one))
+
+/-- `n = 2ᵏ` for some `k` -/
+def isPow2 (n : Nat) : Bool := (List.range (n + 1)).any (fun k => 2 ^ k == n)
+
+def countF (x : α) (l : List α) : Nat := (l.filter (fun y => F.beq x y)).length
+
+/-- multiset equality: every element of either list occurs equally often in both -/
+def isPerm (a b : List α) : Bool :=
+  a.all (fun x => countF F x a == countF F x b) && b.all (fun x => countF F x a == countF F x b)
+
+/-- the specification's verdict on a proof whose components are all consistent with `(n, g)` -/
+def permSpec (n : Nat) (g : α) (t1 t2 : List α) : Bool :=
+  decide (2 ≤ n) && isPow2 n && isPrimRoot F n g && isPerm F t1 t2
+
 /-! ## 7. plookup (ecc/<curve>/fr/plookup/{vector,table}.go), verifiers only (same convention as §6) -/
 
 /-- the quotient identity of `VerifyLookupVector` at ν; `cv = [h₁,h₂,t,z,f,h](ν)`, `scv = [h₁,h₂,t,z](gν)` -/
@@ -537,6 +560,8 @@ def handlePedBatch (r : Nat) (a : List String) : String :=
     | "dropC" => run vks cs.dropLast poks rc
     | "scale" => run vks (cs.map (F.mul m)) (poks.map (F.mul m)) rc
     | "Pcomp" => run vks cs (setAt (setAt poks 0 (fun p => F.add p (F.mul m rc))) 1 (fun p => F.sub p m)) rc
+    | "Ccancel" => run vks (setAt (setAt cs i (fun c => F.add c m)) ((i + 1) % k) (fun c => F.sub c m)) poks rc
+    | "Pcancel" => run vks cs (setAt (setAt poks i (fun c => F.add c m)) ((i + 1) % poks.length) (fun c => F.sub c m)) rc
     | "CzeroAll" => run vks (cs.map (fun _ => 0)) poks rc
     | "PzeroAll" => run vks cs (poks.map (fun _ => 0)) rc
     -- honest element + a point of cofactor order at position i: the membership flag of that argument is false; the
@@ -764,6 +789,16 @@ def handlePermutation (r : Nat) (a : List String) : String :=
   let F := fp r
   if kv a "proved" != "1" then "err" else
   let ch (k : String) := parseHexD (kv a k) % r
+  if kv a "mut" == "consist" then
+    -- CONSISTENT forgery for the prover-supplied (size, g) = (fm, fg): the line must describe a proof that passes the
+    -- identity and both KZG checks (else the harness did not build what it claims); the verdict is the specification's
+    let n := parseHexD (kv a "size")
+    let g := ch "g"
+    if n ≠ parseHexD (kv a "fm") ∨ g ≠ ch "fg" ∨ (kv a "pw2" == "1") ≠ isPow2 n then "bad-op" else
+    if !(permIdentity F n ((parseL (kv a "cv")).map (· % r)) (ch "sv") (ch "eps") (ch "om") (ch "eta")
+          && kv a "kb" == "1" && kv a "ks" == "1") then "bad-forge" else
+    boolStr (permSpec F n g ((parseL (kv a "t1")).map (· % r)) ((parseL (kv a "t2")).map (· % r)))
+  else
   boolStr (permVerify F (parseHexD (kv a "size")) (ch "g") ((parseL (kv a "cv")).map (· % r)) (ch "sv")
     (ch "eps") (ch "om") (ch "eta") (kv a "kb" == "1") (kv a "ks" == "1"))
 
@@ -837,6 +872,8 @@ def handleMpc (r : Nat) (a : List String) : String :=
     | "n2Scale" => run honest n1 (setAt n2 i (F.mul m))
     | "allScale" => run honest (n1.map (F.mul m)) (n2.map (F.mul m))
     | "n1Swap" => run honest (swapAt n1 0 (n1.length - 1) 0) n2
+    | "n1Cancel" => run honest (setAt (setAt n1 i (fun c => F.add c m)) ((i + 1) % n1.length) (fun c => F.sub c m)) n2
+    | "n2Cancel" => run honest n1 (setAt (setAt n2 i (fun c => F.add c m)) ((i + 1) % n2.length) (fun c => F.sub c m))
     | "chal" => run { honest with pokKnown := false } n1 n2
     | "dst" => run { honest with pokKnown := false } n1 n2
     | "proofOther" => run { com := m, pokx := m, pokKnown := true } n1 n2
